@@ -1,0 +1,115 @@
+//! Verification hooks. Compiled only with `--cfg noodles_verif`.
+//!
+//! This widens the visibility of the block codecs and the variable-length integer codings.
+
+#![allow(missing_docs)]
+
+use std::io::{self, Read, Write};
+
+pub use crate::codecs::{aac::Flags as AacFlags, rans_4x8::Order, rans_nx16::Flags as RansNx16Flags};
+
+pub fn rans_4x8_encode(order: Order, src: &[u8]) -> io::Result<Vec<u8>> {
+    crate::codecs::rans_4x8::encode(order, src)
+}
+
+pub fn rans_4x8_decode(src: &[u8]) -> io::Result<Vec<u8>> {
+    crate::codecs::rans_4x8::decode(src)
+}
+
+pub fn rans_nx16_encode(flags: RansNx16Flags, src: &[u8]) -> io::Result<Vec<u8>> {
+    crate::codecs::rans_nx16::encode(flags, src)
+}
+
+pub fn rans_nx16_decode(src: &[u8], uncompressed_size: usize) -> io::Result<Vec<u8>> {
+    crate::codecs::rans_nx16::decode(src, uncompressed_size)
+}
+
+pub fn aac_encode(flags: AacFlags, src: &[u8]) -> io::Result<Vec<u8>> {
+    crate::codecs::aac::encode(flags, src)
+}
+
+pub fn aac_decode(src: &[u8], uncompressed_size: usize) -> io::Result<Vec<u8>> {
+    crate::codecs::aac::decode(src, uncompressed_size)
+}
+
+pub fn fqzcomp_encode(lens: &[usize], src: &[u8]) -> io::Result<Vec<u8>> {
+    crate::codecs::fqzcomp::encode(lens, src)
+}
+
+pub fn fqzcomp_decode(src: &[u8]) -> io::Result<Vec<u8>> {
+    crate::codecs::fqzcomp::decode(src)
+}
+
+pub fn name_tokenizer_encode(src: &[u8]) -> io::Result<Vec<u8>> {
+    crate::codecs::name_tokenizer::encode(src)
+}
+
+pub fn name_tokenizer_decode(src: &[u8]) -> io::Result<Vec<u8>> {
+    crate::codecs::name_tokenizer::decode(src)
+}
+
+pub fn gzip_encode(compression_level: flate2::Compression, src: &[u8]) -> io::Result<Vec<u8>> {
+    crate::codecs::gzip::encode(compression_level, src)
+}
+
+pub fn gzip_decode(src: &[u8], dst: &mut [u8]) -> io::Result<()> {
+    crate::codecs::gzip::decode(src, dst)
+}
+
+pub fn bzip2_encode(compression_level: ::bzip2::Compression, src: &[u8]) -> io::Result<Vec<u8>> {
+    crate::codecs::bzip2::encode(compression_level, src)
+}
+
+pub fn bzip2_decode(src: &[u8], dst: &mut [u8]) -> io::Result<()> {
+    crate::codecs::bzip2::decode(src, dst)
+}
+
+pub fn lzma_encode(compression_level: u32, src: &[u8]) -> io::Result<Vec<u8>> {
+    crate::codecs::lzma::encode(compression_level, src)
+}
+
+pub fn lzma_decode(src: &[u8], dst: &mut [u8]) -> io::Result<()> {
+    crate::codecs::lzma::decode(src, dst)
+}
+
+pub fn read_itf8<R>(reader: &mut R) -> io::Result<i32>
+where
+    R: Read,
+{
+    crate::io::reader::num::read_itf8(reader)
+}
+
+pub fn write_itf8<W>(writer: &mut W, n: i32) -> io::Result<()>
+where
+    W: Write,
+{
+    crate::io::writer::num::write_itf8(writer, n)
+}
+
+pub fn read_ltf8<R>(reader: &mut R) -> io::Result<i64>
+where
+    R: Read,
+{
+    crate::io::reader::num::read_ltf8(reader)
+}
+
+pub fn write_ltf8<W>(writer: &mut W, n: i64) -> io::Result<()>
+where
+    W: Write,
+{
+    crate::io::writer::num::write_ltf8(writer, n)
+}
+
+pub fn read_uint7<R>(reader: &mut R) -> io::Result<u32>
+where
+    R: Read,
+{
+    crate::io::reader::num::read_uint7(reader)
+}
+
+pub fn write_uint7<W>(writer: &mut W, n: u32) -> io::Result<()>
+where
+    W: Write,
+{
+    crate::io::writer::num::write_uint7(writer, n)
+}
